@@ -292,6 +292,10 @@ func (w *algWorld) Gen(seed uint64, tier string) *Plan {
 	if cfg.Kind == "treeset" && r.P(1, 8) {
 		useFloat(r, &cfg)
 	}
+	lopsided := cfg.Elem != "float" && r.P(1, 25)
+	if lopsided {
+		cfg.Dom = 1024 // one operand of several hundred members, the other of a handful (sizes apart by two orders of magnitude)
+	}
 	p := &Plan{World: "alg", Cfg: cfg}
 	a := makeSubject(cfg, false)
 	b := a.Fresh()
@@ -300,10 +304,19 @@ func (w *algWorld) Gen(seed uint64, tier string) *Plan {
 	p.Clients = []string{clients[0].Role, clients[1].Role}
 	// relation between the operands: disjoint / overlapping / nested / equal / one empty
 	rel := r.PickS("free", "free", "disjoint", "nested", "equal", "a-empty", "b-empty", "a-larger", "b-larger")
-	p.Cfg.Mode = rel
 	n := []int{4, 8, 16, 30, 60}[r.Intn(5)]
+	if lopsided {
+		big := r.Intn(2)
+		op := genFill(r, 0, 300, 900)
+		op.X = big
+		subj[big].ModelApply(op)
+		p.Ops = append(p.Ops, op)
+		rel = []string{"b-larger", "a-larger"}[big] // (most of the few further operations go to the small operand)
+		n = []int{3, 6, 10}[r.Intn(3)]
+	}
+	p.Cfg.Mode = rel
 	half := cfg.Dom / 2
-	id := 0
+	id := len(p.Ops)
 	for i := 0; i < n; i++ {
 		t := r.Intn(2)
 		switch rel {
